@@ -934,9 +934,35 @@ func (g *plGen) step() {
 				g.emit(sprintf("pl msg.ins %d %d %d", m, s, g.intArg(capBits)))
 			}
 		}
-	case k < 76:
+	case k < 74:
 		if len(g.msgs) > 0 {
 			g.emit(sprintf("pl msg.rm %d %d", g.anyOf(g.msgs), g.anyOf(g.sigs)))
+		}
+	case k < 76:
+		// move a signal from one message to another one (other byte order, other size)
+		if len(g.msgs) > 1 {
+			from := g.msgs[r.Intn(len(g.msgs))]
+			to := g.msgs[r.Intn(len(g.msgs))]
+			if msg := g.ex.msgs[from]; msg != nil && len(msg.Signals()) > 0 && from != to {
+				sg := msg.Signals()[r.Intn(len(msg.Signals()))]
+				s := g.ex.sigID[sg.EntityID()]
+				ok := true
+				if es, isE := sg.(*acmelib.EnumSignal); isE {
+					for k, en := range g.ex.enums {
+						if en == es.Enum() && g.enumsIn(to)[k] {
+							ok = false // RefsApart
+						}
+					}
+				}
+				if ok && g.emit(sprintf("pl msg.rm %d %d", from, s)) == "ok" {
+					capBits := 64
+					if m2 := g.ex.msgs[to]; m2 != nil {
+						capBits = m2.SizeByte() * 8
+					}
+					g.emit(sprintf("pl msg.ins %d %d %d", to, s, g.intArg(capBits)))
+					g.emit(sprintf("pl dump %d", to))
+				}
+			}
 		}
 	case k < 77:
 		if len(g.msgs) > 0 && r.Intn(3) == 0 {
